@@ -10,11 +10,21 @@ def run(ctx):
         raise core.Machinery("nothing exported")
     inp = ctx.write_ndjson("init.ndjson", r.exported)
     core.absorb(ctx, ctx.harness(["c19-replay", "-in", inp], timeout=3000))
+    # descriptors from parameter sets serialised by the syntax specs: every SPS vector of AvcSyntax.tla / HevcSyntax.tla
+    ps = []
+    for module, cfg, codec in (("AvcSyntax", "Avc_sps_quick.cfg" if q else "Avc_sps_thorough.cfg", "avc"), ("HevcSyntax", "Hevc_sps_quick.cfg" if q else "Hevc_sps_thorough.cfg", "hevc")):
+        rs = ctx.tlc_ok(module, cfg, workers=14, timeout=3000, heap="16g", stack="256m")
+        for e in rs.exported:
+            if e.get("struct") == "sps":
+                ps.append({"codec": codec, "v": e["v"], "nal": e["nal"], "width": e["width"], "height": e["height"]})
+    if len(ps) < 500:
+        raise core.Machinery("only %d parameter sets exported by the syntax specs" % len(ps))
+    core.absorb(ctx, ctx.harness(["c19-psets", "-in", ctx.write_ndjson("psets.ndjson", ps)], timeout=3000))
     ctx.cov["bounds"] = {"tracks": "1..%d" % (2 if q else 3), "media_types": ["video", "audio", "subtitle", "subtitles", "stpp", "text", "wvtt", "meta"],
                          "languages": ["und", "en", "zh-Hant"] if q else ["und", "eng", "swe", "en", "sv-SE", "zh-Hant"],
                          "descriptors": ["avc1", "avc3", "hvc1", "hev1", "AAC-LC", "HE-AACv1", "HE-AACv2", "ac-3", "ec-3", "wvtt", "stpp"]}
     ctx.cov["rule"] = ("behaviours = built states of Init.tla (all AddEmptyTrack/SetDescriptor histories); each replayed through the real API, "
                        "projected before and after encode/decode (both decoders) and used to decode a fragment per track")
     ctx.cov["traces_validated_against_impl"] = 0
-    ctx.assumptions += ["parameter sets are the repository's own test vectors; their parsed dimensions are trusted here (C15 judges the parsers)"]
+    ctx.cov["bounds"]["parameter_sets"] = "the descriptor histories use the repository's own test vectors; in addition %d SPS NAL units serialised by AvcSyntax.tla / HevcSyntax.tla (every profile, chroma format, bit depth pair, cropping, VUI shape) are given to SetAVCDescriptor / SetHEVCDescriptor (avc1, avc3, hvc1, hev1): sample entry dimensions, tkhd, configuration record profile / level / chroma / bit depths and the SPS verbatim are compared with the coded values, as built and after encode + DecodeFile / DecodeFileSR" % len(ps)
     return ctx.finish("model_checking", exhaustive=True)
